@@ -849,6 +849,148 @@ def check_C17(tier, seed):
     return out
 
 
+# ======================================================================================= C04
+def lx_items_check(recs, workname, tlc_procs=4, tlc_workers=2):
+    import lx as lxl
+    items = [lxl.to_item(r) for r in recs if r and not r['threw'] and r['dfa'] is not None]
+    work = vlib.scratch(workname)
+    tasks = []
+    for ci, part in enumerate(pipeline.chunks(items, tlc_procs)):
+        ip = os.path.join(work, 'lx%d.items.ndjson' % ci)
+        vlib.write_ndjson(ip, part)
+        cfg = pipeline.write_cfg(work, 'lx%d' % ci, 'Spec', ['RefReported', 'ModelReported', 'StaticReported'], view='vw')
+        tasks.append((part, (lambda ip=ip, cfg=cfg, ci=ci: vlib.run_tlc('LexCheck', cfg, {'VERIF_LX': ip}, '%s_lx%d' % (workname, ci), workers=tlc_workers, timeout=1500))))
+    outs = vlib.run_parallel([t[1] for t in tasks])
+    ref, model, static = collections.defaultdict(list), collections.defaultdict(list), {}
+    st = tr = 0
+    runs = []
+    for (part, _), r in zip(tasks, outs):
+        if r.exit != 0 or r.errors:
+            raise Infra('LexCheck failed: %s\n%s' % (r.errors[:3], r.out[-3000:]))
+        st += r.distinct; tr += r.generated
+        runs.append({'kind': 'lexer-product', 'term_sets': len(part), 'distinct': r.distinct, 'generated': r.generated, 'wall_s': round(r.wall, 1)})
+        for d in r.lines.get('LXREF', []):
+            ref[d['id']].append(d)
+        for d in r.lines.get('LXMODEL', []):
+            model[d['id']].append(d)
+        for d in r.lines.get('LXSTATIC', []):
+            static[d['id']] = d
+    return {i['id']: i for i in items}, ref, model, static, st, tr, runs
+
+
+def check_C04(tier, seed):
+    import lx as lxl, rx as rxl
+    out = Outcome()
+    rng = random.Random(seed)
+    sets = list(lxl.FAMILIES)
+    sets += lxl.enum_sets(2)
+    e3 = lxl.enum_sets(3)
+    sets += e3[::29] if tier == 'quick' else e3
+    for i in range(40 if tier == 'quick' else 800):
+        n = rng.choice([2, 3, 4, 5])
+        ts = []
+        for _ in range(n):
+            r = rng.random()
+            if r < 0.3:
+                ts.append(lxl.C(rng.choice('ab+x1')))
+            elif r < 0.55:
+                ts.append(lxl.S(''.join(rng.choice('ab+1') for _ in range(rng.choice([2, 2, 3])))))
+            else:
+                pt = rxl.random_pattern(rng, depth=rng.choice([1, 2, 3]))
+                if len(pt) <= 22:
+                    ts.append(lxl.R(pt))
+        keyset = set()
+        ts2 = []
+        for t in ts:
+            k = (t[0], tuple(t[1]) if isinstance(t[1], list) else t[1])
+            if k not in keyset:
+                keyset.add(k); ts2.append(t)
+        if ts2:
+            sets.append(ts2)
+    jobs = [('l%d' % i, ts, []) for i, ts in enumerate(sets)]
+    recs, crashed, work = lxl.run_lx(jobs, 'C04')
+    for rc, j in crashed:
+        out.notes.append('lx driver died (exit %s) near %s' % (rc, lxl.set_text(j[0][1]) if j else '?'))
+    byid = {j[0]: j for j in jobs}
+    items, ref, model, static, st, tr, runs = lx_items_check(recs, 'C04tlc', tlc_procs=4 if tier == 'quick' else 8)
+    # ---- execute witnesses on the real dfa_match
+    wjobs = []
+    for lid in set(ref) | set(model):
+        ws = sorted(ref.get(lid, []) + model.get(lid, []), key=lambda d: len(d['w']))[:2]
+        wjobs.append((lid, byid[lid][1], [rxl.witness_bytes(items[lid], d['w']) for d in ws]))
+    wrecs, _, _ = lxl.run_lx(wjobs, 'C04w') if wjobs else ([], [], None)
+    confirmed = {}
+    for (lid, ts, strs), r in zip(wjobs, wrecs):
+        if r is None:
+            continue
+        ws = sorted(ref.get(lid, []) + model.get(lid, []), key=lambda d: len(d['w']))[:2]
+        for d, m in zip(ws, r['matches']):
+            full = (m['idx'] if m['len'] == len(m['s']) else -1)
+            if full == d['real']:
+                confirmed.setdefault(lid, []).append({'input': bytes(m['s']).decode('latin-1'), 'real_longest_match': [m['idx'], m['len']],
+                                                      'term_matching_whole_input_per_reference': d.get('ref', d.get('model')), 'automaton_stops_early': d.get('cut', False)})
+    k1 = known_match('C04', 'lx-design')
+    k1_cases = []
+    for lid in sorted(set(ref) | set(model) | set(static)):
+        txt = lxl.set_text(byid[lid][1])
+        if lid in model or lid in static:
+            out.violations.append({'summary': {'terms': txt, 'class': 'real lexer automaton deviates from the modelled construction', 'model_mismatch': model.get(lid, [None])[0],
+                                               'static': static.get(lid), 'executed': confirmed.get(lid, [])[:2]}, 'kind': 'lx', 'terms': byid[lid][1]})
+        else:
+            if not confirmed.get(lid):
+                raise Infra('witness for %s not reproduced by the real dfa_match' % txt)
+            if k1:
+                k1_cases.append((txt, confirmed[lid][0]))
+            else:
+                out.violations.append({'summary': {'terms': txt, 'class': 'tokenisation differs from longest-match / first-listed', 'executed': confirmed[lid][:2]}, 'kind': 'lx', 'terms': byid[lid][1]})
+    # ---- through the real driver: token-list parsers over term sets the automaton layer found correct
+    good = [j for j in jobs if j[0] in items and j[0] not in ref and j[0] not in model and j[0] not in static]
+    fam = [j for j in good if j[1] in lxl.FAMILIES]
+    pick = fam[:6 if tier == 'quick' else 30] + rng.sample(good, min(len(good), 6 if tier == 'quick' else 40))
+    entries = []
+    seen_pick = set()
+    for (lid, ts, _) in pick:
+        if lid in seen_pick:
+            continue
+        seen_pick.add(lid)
+        e = pipeline.lex_entry('ls' + lid, ts)
+        special = set(b'[]()*+?|{}\\^-.')
+        alpha = sorted({b for t in ts for b in ([t[1]] if t[0] == 'C' else t[1]) if 32 < b < 127 and (t[0] != 'R' or b not in special)} | {ord('a'), ord('1'), ord('+'), ord('?')})[:6]
+        wsb = [32, 10, 9]
+        L = 4 if tier == 'quick' else 5
+        ins = []
+        for sx in gram.all_strings(alpha + wsb, L):
+            ins.append(sx)
+            if len(ins) >= (500 if tier == 'quick' else 4000):
+                break
+        for (ws, nl) in ((1, 1), (1, 0), (0, 1)):
+            pipeline.add_jobs(e, ins if (ws, nl) == (1, 1) else ins[::4], verbose=True, ws=ws, nl=nl, tag='o%d%d_' % (ws, nl))
+        for _ in range(10 if tier == 'quick' else 60):
+            n = rng.randint(5, 40)
+            pipeline.add_jobs(e, [[rng.choice(alpha + alpha + wsb + [11, 12, 13, 0]) for _ in range(n)]], verbose=bool(rng.getrandbits(1)), tag='r')
+        entries.append(e)
+    res = None
+    if entries:
+        res, work2 = prun.run(entries, 'C04drv', design_L=None, do_product=False, tlc_procs=4 if tier == 'quick' else 8, tlc_workers=4 if tier == 'quick' else 2)
+        judge_traces(out, entries, res, {'step', 'functor', 'report', 'position', 'verdict', 'tree', 'extra', 'threw'}, None)
+    out.violations = out.violations[:12]
+    if k1_cases:
+        ex = '; '.join('%s lexes %r as %s' % (t, c['input'], c['real_longest_match']) for t, c in k1_cases[:3])
+        out.known.append('K1 (term-set union built by in-place merging): %d of %d term sets tokenise wrongly exactly as the modelled design does, e.g. %s' % (len(k1_cases), len(items), ex))
+    out.coverage = {'states': int(st + (res.states if res else 0)), 'transitions': int(max(tr + (res.transitions if res else 0), 1)),
+                    'traces_validated_against_impl': int(res.traces if res else 0),
+                    'term_sets': len(jobs), 'term_sets_equal_to_reference': len(items) - len(set(ref) | set(model)), 'term_sets_failing_as_modelled_design_K1': len(k1_cases),
+                    'witnesses_executed_on_real_dfa_match': sum(len(v) for v in confirmed.values()),
+                    'driver_level_term_sets': len(entries), 'driver_level_event_kinds': dict(res.event_kinds) if res else {},
+                    'tlc_runs': runs + (res.tlc_runs if res else []),
+                    'bounds': {'term_sets_exhaustive_up_to': '2 terms (3 terms: sampled in quick, all in thorough) over %d descriptors' % len(lxl.BASIC), 'driver_inputs_L': 4 if tier == 'quick' else 5},
+                    'samples': [{'terms': lxl.set_text(byid[l][1]), 'states': len(items[l]['dfa'])} for l in list(items)[:3]] + (sample_traces(entries, 2) if entries else []),
+                    'exhaustive': False}
+    out.assumptions = ['TLC + JSON reader', 'reference = per-term derivative languages, longest match, least index (spec/LexCheck.tla, Tables!LexRefAt); pattern meaning = RegexSyntax!Doc',
+                       'segment abstraction refined by the real rows', 'K1 attribution as for C03']
+    return out
+
+
 # ======================================================================================= replay
 def replay(pid, path):
     v = json.load(open(path))
@@ -860,6 +1002,15 @@ def replay(pid, path):
         probs, classes, st2, tr2 = syntax_check(recs, 'replaysyn')
         print('library accepts:', recs[0] and recs[0]['valid'], ' ref mismatches:', len(ref.get('p0', [])), ' model mismatches:', len(model.get('p0', [])), ' syntax:', [d['why'] for d in probs])
         if crashed or ref or model or static or probs:
+            out.violations.append(v)
+        return out
+    if v.get('kind') == 'lx':
+        import lx as lxl
+        ts = [tuple(t) for t in v['terms']]
+        recs, crashed, work = lxl.run_lx([('l0', ts, [])], 'replay')
+        items, ref, model, static, st, tr, runs = lx_items_check(recs, 'replaytlc')
+        print('reference mismatches:', ref.get('l0', [])[:2], ' model mismatches:', model.get('l0', [])[:2], ' static:', static)
+        if crashed or ref or model or static:
             out.violations.append(v)
         return out
     if v.get('kind') == 'diag':
